@@ -343,6 +343,10 @@ pub fn run(tier: Tier) -> i32 {
         if i == 0 {
             trees.push(A::doc(vec![A::el(X, "xmlns").decl("p", X).attr(X, "xmlns", "v").attr(X, "id", " a  b ").attr(X, "space", "preserve").child(A::el("", "xml").child(A::pi("xmlns", Some("d"))))]));
         }
+        // the redundant but legal declaration of the xml prefix is a declaration like any other
+        if i == 1 {
+            trees.push(A::doc(vec![A::el("", "a").decl("xml", XML_NS).attr(XML_NS, "lang", "en").child(A::el("", "b").decl("p", X).decl("xml", XML_NS))]));
+        }
         if n2.starts_with("xml") {
             // prefixes beginning with xml are reserved; keep them out of the prefix position
             trees.truncate(1);
